@@ -35,6 +35,8 @@ def spell(step, prev):
         return "%s * (%d)" % (prev, g["k"])
     if a == "Neg":
         return "-%s" % prev
+    if a == "CmpLit":
+        return prev
     raise core.ToolError("unknown walk action %s" % a)
 
 
@@ -74,7 +76,11 @@ def run(ctx, own_actions, prop_words, nwalks=None, seed_offset=0):
         for w in b:
             L.append("  {")
             for k, s in enumerate(w["steps"]):
-                L.append("    auto s%d = %s; auv::wlog(%d, %d, s%d);" % (k, spell(s, "s%d" % (k - 1)), w["id"], k, k))
+                if s["a"] == "CmpLit":
+                    lt = "make_quantity<%s>(%s)" % (s["args"]["unit"], lit(s["args"]["rep"], s["args"]["v"]))
+                    L.append("    auto s%d = s%d; auv::wlogc(%d, %d, s%d, s%d < %s, s%d == %s, s%d > %s);" % (k, k - 1, w["id"], k, k, k, lt, k, lt, k, lt))
+                else:
+                    L.append("    auto s%d = %s; auv::wlog(%d, %d, s%d);" % (k, spell(s, "s%d" % (k - 1)), w["id"], k, k))
             L.append("  }")
         return "\n".join(L + ["  return 0;", "}"]) + "\n"
     cfgs = ["c20", "g14"] if quick else ["c20", "g14", "c14", "g20"]
